@@ -79,7 +79,7 @@ def run(tier):
     v.cov['samples'].append(dict(kind='E1 case from TLC (RegpReqMC.tla): rx call | allowed observations', events=cases[1000:1002]))
     v.notes['e0_e1'] = dict(model='RegpReqMC.tla', cases=len(cases), invariant='C06Holds')
     ss = []
-    for rnd in vf.rounds(tier, 3):
+    for rnd in vf.rounds(tier, 8):
         ss += list(scripts(rnd, quick))
     vf.trace_flow(v, 'RegpTrace.tla', 'RegpTrace.cfg', 'regp', ss, 'req')
     v.cov['distinct_nontrivial'] += len(set(l for s in ss for l in s))
